@@ -46,7 +46,11 @@ let lifecycle n reverse =
 
 let () =
   iter_lines (fun line ->
-    match split_ws line with
+    (* a leading @<n> sets errno before the calls under test: neither model nor spec depends on it *)
+    let toks = match split_ws line with
+      | t :: rest when String.length t > 0 && t.[0] = '@' -> rest
+      | l -> l in
+    match toks with
     | ["S"; size; ri; rs; rcs] ->
       (* the model makes ONE pthread_create call: only the first scripted result is ever consumed *)
       let rcl = List.map int_of_string (String.split_on_char ',' rcs) in
